@@ -131,6 +131,7 @@ class State:
         self.written_alloc = None
         self.trace = []            # human-readable path description
         self.pure_memo = {}
+        self.rebound = {}          # parameter name -> its (container) value when the name was re-bound by an assignment
         self.alloc = {}            # record -> Array(Ref,Bool): references allocated so far (only grows)
 
     def clone(self):
@@ -149,6 +150,7 @@ class State:
         n.trace = list(self.trace)
         n.pure_memo = dict(self.pure_memo)
         n.alloc = dict(self.alloc)
+        n.rebound = dict(self.rebound)
         return n
 
     def alloc_map(self, rec):
